@@ -28,8 +28,8 @@ Lower(b)      == IF IsUpper(b) THEN b + 32 ELSE b
 
 \* whitespace the documentation calls trivia; ';' starts a line comment
 IsTrivia(b) == b \in {SP, TAB, CR, LF, FF}
-\* bytes that end a bare token (besides end of input)
-IsTokEnd(b) == IsTrivia(b) \/ b \in {LP, RP, LB, RB, SEMI}
+\* bytes that end a bare token (besides end of input): the R7RS delimiters and the brackets
+IsTokEnd(b) == IsTrivia(b) \/ b \in {LP, RP, LB, RB, SEMI, DQ, PIPE}
 
 \* ------------------------------------------------------------------ small sequence helpers
 LastOf(s) == s[Len(s)]
